@@ -366,8 +366,11 @@ func runSem(c *core.Ctx) {
 	}
 	// conformance of the template itself: it must load and process cleanly in this layout
 	{
-		caseNo, _ := c.Begin()
+		caseNo, run := c.Begin()
 		sc := mk(toks, 0, "none")
+		if c.Skip(caseNo, run, Input{Kind: "sem", Text: "template " + t.name}) {
+			return
+		}
 		var errs []string
 		core.Guard(func() {
 			ms := yang.NewModules()
@@ -393,8 +396,11 @@ func runSem(c *core.Ctx) {
 		if c.Expired() {
 			return
 		}
-		caseNo, _ := c.Begin()
+		caseNo, run := c.Begin()
 		sc := mk(f.toks, f.wantPre, f.kind)
+		if bb, e := json.Marshal(sc); e == nil && c.Skip(caseNo, run, Input{Kind: "sem", Text: string(bb), Fault: f.kind}) {
+			continue
+		}
 		c.Exec()
 		c.Edge(1)
 		c.StateN(1)
